@@ -47,6 +47,8 @@ def run(c):
         "the connection the message was submitted over and the configured name of the server (C01 run ... C=<k><t|n> Q=<k>: ConnState with the HELO/EHLO name of the client from a table - plain, empty label, label > 63 octets, name > 253 octets, address literals, underscore, malformed A-label xn--1, U-label / A-label / upper-case ACE prefix, a U-label whose A-label is longer than 63 octets, trailing / leading dot, dots only, single letter, empty - "
         "protocol, addresses, authenticated user, TLS state; sender traced or not; server name plain / empty label / over-long label / over-long name / trailing dot / U-label / A-label / upper case / leading dot / underscore; every 8th case walks the tables while somebody fails for good in the first attempt on the instance that accepted the message, six of seven without SMTPUTF8; 25 % / 15 % of the other cases get a random client / server name, restarts included: later instances have no ConnState); "
         "C01 names: the real Queue.emitDSN for every client row x traced/untraced x SMTPUTF8 and every server row x SMTPUTF8 (one op line per point, the results of dns.SelectIDNA on this tree travel with the op line; observed: a report is handed over, its Reporting-MTA / Received-From-MTA fields; monitor C01/report-cannot-be-generated); "
+        "the spool entry as ANOTHER build of the server left it (C01 run ... V=<k><forms>: while the server is down before attempt k the entry's meta-data is rewritten - a field this build does not know at the end / in front with a structured value / inside MsgMeta / inside MsgMeta.SMTPOpts / with the value null, the document indented, its keys in alphabetical order, zero-valued fields left out, white space around it - "
+        "the harness first checks with the plain decoder that this build reads the same data from both spellings; every 8th case walks the forms, alone and in pairs, at the restart somebody fails after, 40 % of the other histories with restarts get random ones); "
         "one fault plan per attempt (start / per-recipient / body / per-recipient body status / commit, each ok|temporary|permanent|unclassified, fault density 10-90%); "
         "the REAL queue (time wheel, spool files, DSN generator) runs each to quiescence against a scripted target; the whole call/commit/report trace is compared "
         "with the Lean model's trace; distinct = distinct scenarios",
@@ -54,6 +56,7 @@ def run(c):
         "(C01_hop_attempt_truthful, C01_hop_exactly_one_outcome, C01_hop_body_fault_not_acked) and over all schedules of restarts and all well-formed envelopes "
         "(Model/QueueRestart.lean: runR_eq, C01_exactly_one_outcome_with_restarts, C01_exactly_one_outcome_with_read_faults - a restart and a read of the entry that failed transiently are transparent, no attempt panics on a nil bookkeeping map, every due report can be generated); the class of a failure is a function of the basic reply code / the WithTemporary marker on the Unwrap chain and never of the enhanced status code (Model/QueueErr.lean: C01_retry_decision_ignores_enhanced_code, C01_classify_ignores_enhanced_code, C01_permanent_reply_not_requeued, C01_recorded_status_reportable); recipients are opaque identities in the model; Model/QueueDup.lean: deliver calls Commit iff some accepted recipient has no error, for every recipient LIST (repetitions allowed) and every status map (keys outside the envelope allowed) - C01_commit_decision_iff, C01_commit_decision_ignores_foreign_keys, C01_commit_decision_dedup, C01_deliver_commits_iff; an address listed twice is classified once per attempt and the pending list of every later attempt is duplicate-free (C01_pending_list_duplicate_free, runHopD_eq, runRD_eq); the report decision takes the header as an argument and ignores it (C01_report_decision_ignores_header, C01_exactly_one_outcome_any_header); "
         "Model/QueueTrace.lean: the MTA names of the report (ReportingMTAInfo.WriteTo with dns.SelectIDNA as a parameter): a report is stopped by names iff the SERVER's own name is empty or inconvertible (C01_mta_names_ok_iff_server_name), never by what the client called itself, traced or not, connection state present or not (C01_report_decision_ignores_client, C01_inconvertible_client_name_left_out), and with a usable server name the decision is the one of the theorems above (C01_report_decision_with_names_eq); "
+        "Model/QueueSpool.lean: the meta-data file as a list of members and encoding/json's reading of it into a fresh QueueMetadata (unknown members skipped, the later of two wins, null / absent = zero value): the entry that is loaded is a function of the known members alone - C01_load_ignores_unknown_fields, C01_load_ignores_other_build, C01_load_absent_is_zero, C01_load_ignores_key_order - so a restart on a spool another build wrote is the restart of the theorems above; "
         "models tied to queue.go / remote.go / smtp_downstream.go / smtpconn.go by differential runs",
         search=search,
     )
